@@ -1054,8 +1054,13 @@ def dyadic_program(lines):
     input whose pairwise products are exact too).  A traced example that computes `-3 / t` or `1 / L` in Python hands the
     library a 53-bit literal: its products round, cancellations leave residues that are tiny dyadics themselves, so such a
     program is compared numerically from the start"""
+    # a traced example (it carries a `note <example> <args>` line) is compared numerically from the start: its class parameters
+    # are arbitrary (`mu = 0.25, L = 1` gives the coefficient `mu / (2 (1 - mu / L)) ...` whose EXACT value is the dyadic 3/4
+    # while the floats go through 1/6 and land one ulp below): the bit-exact rule is for generated programs, whose literals and
+    # class parameters come from grids on which every intermediate result is exact
+    if any(l.startswith("note ") for l in lines): return False
     for l in lines:
-        if l.startswith("note ") or l.startswith("expect.") or l.startswith("trace.error"): continue
+        if l.startswith("expect.") or l.startswith("trace.error"): continue
         for t in l.split()[1:]:
             m = re.fullmatch(r"(-?\d+)/(\d+)", t)
             if m:
